@@ -22,7 +22,8 @@ def _classpath():
 
 
 def tlc_cmd(module, cfg, workers, metadir, extra=(), heap="3g", deque=False):
-    java = ["java", "-XX:+UseParallelGC", "-Xmx" + heap, "-Xss64m"]
+    # (-UseGCOverheadLimit: on a loaded machine the collector's share of the time says nothing about the heap being too small)
+    java = ["java", "-XX:+UseParallelGC", "-XX:-UseGCOverheadLimit", "-Xmx" + heap, "-Xss64m"]
     if deque:
         java.append("-Dtlc2.tool.queue.IStateQueue=StateDeque")
     java += ["-cp", _classpath(), "tlc2.TLC"]
@@ -63,7 +64,7 @@ def parse_output(text, res):
     res.ok = "Model checking completed. No error has been found." in text
     if not res.ok:
         errs = [l for l in text.split("\n") if l.startswith("Error:") or "Exception" in l]
-        res.error = "\n".join(errs[:8])
+        res.error = "\n".join(errs[:8]) or ("TLC ended without a verdict (killed?): ..." + text[-200:])
     return res
 
 
@@ -95,7 +96,7 @@ def finish(p, t0, metadir, timeout=3600):
     return res
 
 
-def validate_shards(paths, module="FixTrace", heap="3g", timeout=3600, parallel=16):
+def validate_shards(paths, module="FixTrace", heap="4g", timeout=3600, parallel=16):
     """validates shard files in parallel (one JVM each); returns list of (path, TlcResult)"""
     results = []
     pending = list(paths)
